@@ -3,6 +3,7 @@
 From Coq Require Import ZArith QArith Qcanon List Arith Bool Lia.
 From QV.Core Require Import OF QcOF Sums Mat Cplx Psd.
 From QV.Model Require Import QObj HermEmbed C15_Depol.
+From QV.Proofs Require Import C15_Depol C15_DepolPsd.
 Import ListNotations.
 
 Fixpoint forall_lt (n : nat) (p : nat -> bool) : bool := match n with O => true | S k => forall_lt k p && p k end.
@@ -58,3 +59,26 @@ Lemma v_zz_psd : PSD Qc_OF (4 + 4) (embed Qc_OF 4 (op_of_vec 4 pauli2 v_zz)).
 Proof. apply psd_dec_spec.
   - apply symmetric_by_computation. vm_compute. reflexivity.
   - vm_compute. reflexivity. Qed.
+
+(* one outcome of a 2-qubit instrument: "with probability 1/2 answer x and leave the maximally mixed state":
+   G(X) = tr(X)/2 * I/4, HS matrix = 1/2 at (0,0).  Not trace preserving. *)
+Definition hs00 : rmat Qc_OF := fun a b => if (Nat.eqb a 0 && Nat.eqb b 0)%bool then Q2Qc (1 # 2) else 0%Qc.
+Definition eighth : Qc_OF := Q2Qc (1 # 8).
+
+Lemma choi_hs00 i j : (i < 16)%nat -> (j < 16)%nat ->
+  choi_of_hs 4 pauli2 hs00 i j = cmul (CF Qc_OF) (@zof Qc_OF eighth) (if Nat.eqb i j then c1 (CF Qc_OF) else c0 (CF Qc_OF)).
+Proof. intros Hi Hj. apply ceqb_spec.
+  revert j Hj. apply (forall_lt_spec 16 (fun j => ceqb _ _)). revert i Hi. apply (forall_lt_spec 16 (fun i => forall_lt 16 (fun j => ceqb _ _))).
+  vm_compute. reflexivity. Qed.
+
+Lemma hs00_cp : PSD Qc_OF (4 * 4 + 4 * 4) (embed Qc_OF (4 * 4) (choi_of_hs 4 pauli2 hs00)).
+Proof. change (4 * 4)%nat with 16%nat.
+  apply (PSD_ext Qc_OF (16 + 16) (fun i j => cadd Qc_OF (cmul Qc_OF eighth (idm Qc_OF i j)) (cmul Qc_OF (c0 Qc_OF) (idm Qc_OF i j)))).
+  - intros i j Hi Hj.
+    rewrite (embed_ext Qc_OF 16 (choi_of_hs 4 pauli2 hs00)
+              (fun i j => cadd (CF Qc_OF) (cmul (CF Qc_OF) (@zof Qc_OF eighth) (if Nat.eqb i j then c1 (CF Qc_OF) else c0 (CF Qc_OF)))
+                                          (cmul (CF Qc_OF) (@zof Qc_OF (c0 Qc_OF)) (if Nat.eqb i j then c1 (CF Qc_OF) else c0 (CF Qc_OF))))).
+    + rewrite (embed_comb Qc_OF 16 eighth (c0 Qc_OF)). rewrite (embed_cid Qc_OF) by assumption. reflexivity.
+    + intros i' j' Hi' Hj'. rewrite (choi_hs00 i' j' Hi' Hj'). destruct (Nat.eqb i' j'); apply ceqb_spec; vm_compute; reflexivity.
+    + exact Hi. + exact Hj.
+  - apply PSD_comb; [apply Qcleb_spec; vm_compute; reflexivity|apply k_refl|apply PSD_idm|apply PSD_idm]. Qed.
